@@ -1002,6 +1002,23 @@ fn prepare_header(cfg: &Cfg, rng: &mut Rng) -> Prepared {
 thread_local! {
     static NOTES: std::cell::RefCell<Vec<(String, String)>> = std::cell::RefCell::new(Vec::new());
     static SUBST: std::cell::RefCell<(u32, [u32; 8])> = std::cell::RefCell::new((0, [0; 8]));
+    /// does the real decoder parse chunks of length zero?  (probed once, see `probe_empty_chunks`)
+    static PARSES_EMPTY: std::cell::Cell<bool> = std::cell::Cell::new(false);
+}
+
+/// What does the real decoder do with an empty eXIf chunk?  `true`: it reports `Some([])` (chunks of
+/// length zero are parsed like any other — the decoder after the zero-length-chunk repair); `false`:
+/// the chunk is not seen (`None`).  Decides what the harness expects where the outcome legitimately
+/// depends on it (an empty palette counts as "seen"; the model's switch must agree).
+fn probe_empty_chunks() -> bool {
+    let f = tiny_png(&[RawChunk::new(b"eXIf", vec![])]);
+    match decode(&f) {
+        Ok(Ok(d)) => d.fin.exif.as_deref() == Some(&[][..]),
+        _ => false,
+    }
+}
+fn parses_empty() -> bool {
+    PARSES_EMPTY.with(|x| x.get())
 }
 fn note(h: &str, k: &str) {
     NOTES.with(|n| n.borrow_mut().push((h.to_string(), k.to_string())));
@@ -1072,13 +1089,15 @@ fn oracle_fields(cfg: &Cfg, s: &Snap, with_tail: bool) -> Option<Fail> {
                 return oracle("roundtrip/trns", "transparency appeared from nowhere".into());
             }
         }
-        Some(v) if v.is_empty() => {
+        Some(v) if v.is_empty() && cfg.color == 3 && cfg.palette.is_some() => {
+            // an empty alpha table is a legal value for an indexed image: it has to come back
             if s.trns.as_deref() != Some(&[][..]) {
                 return oracle("roundtrip/trns-empty", format!("empty transparency read back as {:?}", s.trns));
             }
         }
         Some(v) => {
-            let seen = cfg.palette.as_ref().map(|p| !p.is_empty()).unwrap_or(false);
+            // a palette written as an empty chunk is seen only by a decoder that parses empty chunks
+            let seen = cfg.palette.as_ref().map(|p| !p.is_empty() || parses_empty()).unwrap_or(false);
             match ref_trns(cfg.color, cfg.depth, seen, v) {
                 Some(want) => {
                     if s.trns.as_ref() != Some(&want) {
@@ -1534,6 +1553,9 @@ fn judge_inflated(raw: &[u8], p: &Prepared, ans: &[String]) -> Option<Fail> {
             if class.contains("+wrote") {
                 return oracle("refusal/itxt-inflated/bytes-written", class.clone());
             }
+            if class != "err:unrepresentable" {
+                return oracle("refusal/itxt-inflated", format!("a payload that is not UTF-8 was refused as {} instead of Unrepresentable", class));
+            }
         }
         (Ok(body), Some(d)) => {
             note("iTXt compressed payload, flag cleared", if valid { "valid UTF-8: written" } else { "not UTF-8: WRITTEN" });
@@ -1878,7 +1900,8 @@ fn gen_cases(ctx: &mut Ctx) -> Vec<Case> {
         c.exif = Some(blob(&mut rng, n));
         cases.push(Case::Header(c));
     }
-    // empty palette / transparency (one root cause with the empty EXIF block: zero-length chunks)
+    // empty palette / transparency (one root cause with the empty EXIF block: zero-length chunks);
+    // the value has to come back, whatever the decoder does today (see `probe_empty_chunks`)
     {
         let mut c = Cfg::plain(1, 1, 8, 2);
         c.palette = Some(vec![]);
@@ -2152,10 +2175,22 @@ pub fn run(ctx: &mut Ctx) {
     let pre = model::ask_one(&["c17 consts".to_string()]);
     let sub = crate_substitutes();
     SUBST.with(|x| *x.borrow_mut() = sub);
+    let probe = probe_empty_chunks();
+    PARSES_EMPTY.with(|x| x.set(probe));
+    ctx.rep.count("real decoder on an empty eXIf chunk", if probe { "parsed: Some([])" } else { "not parsed: None" });
     let want = format!("{} {} 2147483647", sub.0, sub.1.iter().map(|x| x.to_string()).collect::<Vec<_>>().join(","));
-    ctx.rep.evals(1);
-    if pre[0] != want {
-        ctx.rep.violation("model", "model/consts", &format!("model constants {} but the crate's accessors give {}", pre[0], want), J::obj().set("op", J::s("consts")));
+    let (consts, switch) = pre[0].rsplit_once(" parseEmpty=").unwrap_or((&pre[0], "?"));
+    ctx.rep.evals(2);
+    if consts != want {
+        ctx.rep.violation("model", "model/consts", &format!("model constants {} but the crate's accessors give {}", consts, want), J::obj().set("op", J::s("consts")));
+    }
+    if switch != if probe { "1" } else { "0" } {
+        ctx.rep.violation(
+            "model",
+            "model/parse-empty-switch",
+            &format!("the real decoder {} chunks of length zero, but EncodeMeta.parseEmptyChunks = {} in the model: flip that definition", if probe { "parses" } else { "does not parse" }, switch),
+            J::obj().set("op", J::s("consts")),
+        );
     }
     ctx.rep.notes.push("model codec: stored-block zlib + the Lean inflater (payload bytes are never compared, only what they inflate to)".into());
     let cases = gen_cases(ctx);
@@ -2202,6 +2237,7 @@ pub fn run(ctx: &mut Ctx) {
 
 pub fn replay(ctx: &mut Ctx, case: &J) {
     SUBST.with(|x| *x.borrow_mut() = crate_substitutes());
+    PARSES_EMPTY.with(|x| x.set(probe_empty_chunks()));
     if let Some(c) = Case::from_json(case) {
         let mut rng = match case.get("rng").and_then(|r| r.as_str()).and_then(|s| u64::from_str_radix(s, 16).ok()) {
             Some(s) => Rng(s),
